@@ -154,7 +154,7 @@ def conformance(argv):
                 spec = plans.case_spec(check, "quick", 0, i)
                 # identity edits / cache faults are harness-side and copied to the twin anyway; faulted
                 # scans are exercised by the CRASH cases
-                spec["ops"] = [o for o in spec["ops"] if not o.get("fault")]
+                spec["ops"] = [{k: v for k, v in o.items() if k != "read_fault"} for o in spec["ops"] if not o.get("fault")]
             ex = ConformanceExecutor(spec, py, R.child_env(0))
             ex.run()
             n_crash += getattr(ex, "n_crash_cmp", 0)
@@ -204,9 +204,20 @@ class ConformanceExecutor(Executor):
             assert len(self.twin) == len(w.base)
         twin = self.twin
         for name in os.listdir(twin):
-            shutil.rmtree(os.path.join(twin, name))
-        shutil.copytree(w.root, os.path.join(twin, "root"), symlinks=True)
-        os.mkdir(os.path.join(twin, "outside"))
+            full = os.path.join(twin, name)
+            if os.path.islink(full):
+                os.unlink(full)
+            else:
+                shutil.rmtree(full)
+        # mirror the world's layout: <base>[/.ws]/{root,outside} and the <base>/link symlink
+        rel_top = os.path.relpath(w.top, w.base)
+        ttop = twin if rel_top == "." else os.path.join(twin, rel_top)
+        if ttop != twin:
+            os.mkdir(ttop)
+        shutil.copytree(w.root, os.path.join(ttop, "root"), symlinks=True)
+        os.mkdir(os.path.join(ttop, "outside"))
+        os.symlink(os.path.join(ttop, "root"), os.path.join(twin, "link"))
+        self.ttop = ttop
         return twin
 
     def run(self):
@@ -241,12 +252,12 @@ class ConformanceExecutor(Executor):
             return obs
         if sim_ok:
             try:
-                with open(os.path.join(twin, "root", ".codelimit_cache", "codelimit.json")) as f:
+                with open(os.path.join(self.ttop, "root", ".codelimit_cache", "codelimit.json")) as f:
                     real = json.load(f)
             except (OSError, ValueError) as e:
                 self.mismatches.append("scan op %d: real cache unreadable: %s" % (idx, e))
                 return obs
-            a = O.norm_report(real, os.path.join(twin, "root"))
+            a = O.norm_report(real, os.path.join(self.ttop, "root"))
             b = O.norm_report(w.cache_json(), w.root)
             a.pop("repository", None)
             b.pop("repository", None)
@@ -286,7 +297,7 @@ class ConformanceExecutor(Executor):
                     # contents are compared for everything except the report
                     out[n] = (len(b), b"" if n == "codelimit.json" else mask.sub(b"", b.replace(base.encode(), b"<BASE>")))
             return out
-        a = listing(os.path.join(twin, "root"), twin)
+        a = listing(os.path.join(self.ttop, "root"), twin)
         b = listing(w.root, w.base)
         if a != b:
             self.mismatches.append("faulted scan op %d tick %s: durable state differs: real %s, simulated %s" % (
@@ -303,10 +314,11 @@ class ConformanceExecutor(Executor):
         obs = super().do_check(idx, op)
         if obs["outcome"] == "skipped":
             return obs
-        cwd = {"root": os.path.join(twin, "root"), "outside": os.path.join(twin, "outside"), "base": twin}.get(op.get("cwd", "root"))
+        troot = os.path.join(self.ttop, "root")
+        cwd = {"root": troot, "outside": os.path.join(self.ttop, "outside"), "base": self.ttop}.get(op.get("cwd", "root"))
         if cwd is None:
-            cwd = os.path.join(twin, "root", op["cwd"][4:])
-        args = {"cmd": "check", "paths": [x.replace("<ROOT>", os.path.join(twin, "root")) for x in op["args"]],
+            cwd = os.path.join(troot, op["cwd"][4:])
+        args = {"cmd": "check", "paths": [x.replace("<ROOT>", troot) for x in op["args"]],
                 "exclude": list(w.cli_excludes), "quiet": bool(op.get("quiet"))}
         rc, out, err = _real(self.py, self.env, cwd, args)
         self.n_cmp += 1
